@@ -13,9 +13,10 @@
     - ez_renumber_invariant_partial: invariance under a structure-preserving renumbering that is monotone
       on adjacent pairs; NOT covered: renumberings that change the adjacency/edge enumeration (that is
       where the refutation lives).
-    - chiral_stays: for the attribute copy of merge_graphs (GraphOps.merge_node) and for the annotation
-      step; the rest of the pipeline (relabelling in sort_nodes_by_attr, hydrogens) is decided per run by
-      the generated search, clause (b) of EzCheck.prop_fail. *)
+    - chiral_stays: for the attribute copy of merge_graphs (GraphOps.merge_node), for the relabelling of
+      sort_nodes_by_attr (GraphOps model) and for the annotation step; that the PARSER puts the label on
+      the written atom and that hydrogens/squash do not disturb it is decided per run by the generated
+      search, clause (b) of EzCheck.prop_fail. *)
 From Coq Require Import String.
 From Coq Require Import List Ascii ZArith Bool Lia.
 From CGV Require Import Base.PyBase Base.PyVal Base.NxGraph Resolve.GraphOps
@@ -102,6 +103,30 @@ Theorem C15_chiral_stays_annotate : forall g g' k, annotate_ez_isomers_cgsmiles 
   node_get g' k (S "chiral") = node_get g k (S "chiral") /\ node_keys g' = node_keys g.
 Proof. exact chiral_stays_annotate. Qed.
 
+(** ... and the renumbering: sort_nodes_by_attr (GraphOps model: relabel_copy + rewriting of
+    'ez_isomer_atoms') delivers every atom's attribute dict, hence its label, at the atom's new key *)
+Theorem C15_relabel_copy_attrs : forall g m n, NoDup (map (fun x => map_get m (nk x)) g) -> In n g ->
+  node_na (relabel_copy g m) (map_get m (nk n)) = Some (na n).
+Proof. exact relabel_copy_attrs. Qed.
+Theorem C15_chiral_stays_sort : forall g h m n, sort_mapping g = Ok m -> sort_nodes_by_attr g = Ok h ->
+  NoDup (map (fun x => map_get m (nk x)) g) -> In n g ->
+  node_get h (map_get m (nk n)) (S "chiral") = aget (S "chiral") (na n).
+Proof. exact chiral_stays_sort. Qed.
+(** non-vacuity: two fragments merged as F0 [C;x=R]1 | C3 with the first fragment's hydrogen appended as 2
+    ... after sorting by (fragid, key) the label is at key 1, the hydrogen at 2 and the old atom 2 at 3 *)
+Example C15_sort_nonvacuous :
+  let nd := fun k e fid ch => {| nk := k; na := [(S "element", VStr e); (S "fragid", VList [VInt fid])] ++ ch; nadj := [] |} in
+  let g := [nd 0 (S "F") 0 []; nd 1 (S "C") 0 [(S "chiral", VStr (S "R"))]; nd 2 (S "C") 1 [(S "chiral", VStr (S "S"))];
+            nd 3 (S "H") 0 []] in
+  exists m h, sort_mapping g = Ok m /\ sort_nodes_by_attr g = Ok h /\
+    NoDup (map (fun x => map_get m (nk x)) g) /\ map_get m 2 = 3 /\
+    node_get h 3 (S "chiral") = Some (VStr (S "S")) /\ node_get h 1 (S "chiral") = Some (VStr (S "R")).
+Proof.
+  cbv zeta. eexists. eexists. split; [vm_compute; reflexivity|]. split; [vm_compute; reflexivity|].
+  split; [|repeat split; vm_compute; reflexivity].
+  vm_compute. repeat constructor; cbn; intuition discriminate.
+Qed.
+
 (** non-vacuity: a well-formed molecule with marks on which the step succeeds and stores two tuples;
     two pairs of two variants that satisfy the hypotheses of the partial theorem *)
 Example C15_nonvacuous :
@@ -149,3 +174,5 @@ Print Assumptions C15_order_partial.
 Print Assumptions C15_class_exact.
 Print Assumptions C15_chiral_stays_merge.
 Print Assumptions C15_chiral_stays_annotate.
+Print Assumptions C15_relabel_copy_attrs.
+Print Assumptions C15_chiral_stays_sort.
